@@ -1,6 +1,8 @@
 import MageModel.Parse.Ast
 import MageModel.Parse.Pkg
 import MageModel.Gen.Dispatch
+import MageModel.Gen.LowerFirst
+import MageModel.Gen.List
 /-!
 # C06 — targets are exactly the exported functions with a valid target signature (signature part)
 All ways of writing parameter and result lists: grouped names, unnamed and blank parameters, named results, any types.
@@ -404,6 +406,66 @@ theorem listing_star (info : PkgInfo) (f : Function) :
     · simp [h]
     · have h' : ¬ f.targetName = d.targetName := fun e => h e.symm
       simp [h, h']
+
+private theorem eq_of_nodup_map {α β} (key : α → β) : ∀ (l : List α), (l.map key).Nodup →
+    ∀ a b, a ∈ l → b ∈ l → key a = key b → a = b
+  | [], _, _, _, ha, _, _ => by cases ha
+  | x :: l, h, a, b, ha, hb, e => by
+    simp only [List.map_cons, List.nodup_cons, List.mem_map, not_exists, not_and] at h
+    rcases List.mem_cons.mp ha with rfl | ha' <;> rcases List.mem_cons.mp hb with rfl | hb'
+    · rfl
+    · exact absurd e.symm (h.1 b hb')
+    · exact absurd e (h.1 a ha')
+    · exact eq_of_nodup_map key l h.2 a b ha' hb' e
+
+open MageModel.Gen in
+/-- **Each listed name is runnable as printed**: the key `-l` prints for a target (without the star) resolves, on the
+command line, to that very target — for every package the duplicate check accepts: runnable names pairwise different
+ignoring case (`hnames`) and no alias equal to a target name (`halias`).  (`lowerFirst` changes letter case only,
+`lower_lowerFirst`, and the dispatcher compares lower-cased names.) -/
+theorem listed_name_runs (info : PkgInfo) (f : Function) (hf : f ∈ allTargets info)
+    (hnames : ((allTargets info).map fun g => lower g.targetName).Nodup)
+    (halias : ∀ a ∈ info.aliases, lower a.1 ≠ lower f.targetName) :
+    resolve info (lowerFirst f.targetName) = some f := by
+  have hl := lower_lowerFirst f.targetName
+  generalize lowerFirst f.targetName = w at hl ⊢
+  generalize hkey : (fun g : Function => lower g.targetName) = key at hnames
+  have hkf : ∀ g, key g = lower g.targetName := fun g => by rw [← hkey]
+  generalize htn : lower f.targetName = ltn at hl halias
+  have hmain : (allTargets info).find? (fun g => lower g.targetName == lower w) = some f := by
+    rw [hl]
+    cases hfind : (allTargets info).find? (fun g => lower g.targetName == ltn) with
+    | none =>
+      rw [List.find?_eq_none] at hfind
+      have := hfind f hf
+      simp [htn] at this
+    | some g =>
+      have hg := List.mem_of_find?_eq_some hfind
+      have he : lower g.targetName = ltn := by simpa using List.find?_some hfind
+      have he' : key g = key f := by rw [hkf, hkf, he, htn]
+      exact congrArg some (eq_of_nodup_map key (allTargets info) hnames g f hg hf he')
+  unfold resolve
+  simp only []
+  split
+  · next a g hfa =>
+    have hmem := List.mem_of_find?_eq_some hfa
+    have hp : lower a = lower w := by simpa using List.find?_some hfa
+    exact absurd (hp.trans hl) (halias (a, g) hmem)
+  · exact hmain
+
+/-- the hypotheses of `listed_name_runs` are met by an ordinary package (two targets, one alias to another name) -/
+example : ((allTargets { funcs := [({ name := "Build", isError := false, isContext := false, args := [] } : Function),
+                                   ({ name := "TestAll", isError := false, isContext := false, args := [] } : Function)] }).map
+            fun g => lower g.targetName).Nodup := by decide
+
+open MageModel.Gen in
+/-- … and the listing contains a row for every target: with `listed_rows_exact` (Props/C18) the rows of `-l` are the
+targets, one each; this is the key of `f`'s row -/
+theorem listed_key_of_target (info : PkgInfo) (f : Function) (hf : f ∈ allTargets info) :
+    (listKey info f, f.synopsis) ∈ sortBy (·.1) (listRows info) := by
+  rw [mem_sortBy]
+  unfold listRows
+  exact List.mem_map.mpr ⟨f, hf, rfl⟩
 
 end
 
